@@ -56,6 +56,24 @@ static void on_fault(int sig, siginfo_t* si, void* ctx)
     siglongjmp(jb, 1);
 }
 
+/* ambient state: the specification gives a library call nothing but its arguments.  Before every call errno holds a different
+ * stale value (as after some earlier, unrelated failure); afterwards it must still hold it.  The C library's doors to ambient
+ * state are interposed while a call runs: the environment, the clock, the random generator, the terminal, the locale.  A call
+ * that uses one of them is reported through the "canary" column of the answer (2: errno modified, 3: ambient state consulted). */
+#include <errno.h>
+static const int errno_poison[6] = { EINVAL, EFAULT, EINTR, 0, ENOMEM, ERANGE };
+static unsigned errno_k; static int errno_before; static volatile int ambient_calls;
+static void ambient_arm(void) { errno_before = errno_poison[errno_k++ % 6]; errno = errno_before; ambient_calls = 0; }
+static int ambient_verdict(void) { int e = errno; errno = 0; return ambient_calls ? 3 : (e != errno_before ? 2 : 0); }
+static volatile sig_atomic_t in_call_flag_for_ambient;
+char* getenv(const char* n) { extern char** environ; if (in_call_flag_for_ambient) { ambient_calls++; return (char*)"1"; }
+    size_t l = strlen(n); for (char** e = environ; e && *e; e++) if (!strncmp(*e, n, l) && (*e)[l] == '=') return *e + l + 1; return NULL; }
+char* secure_getenv(const char* n) { return getenv(n); }
+int rand(void) { if (in_call_flag_for_ambient) ambient_calls++; return 4; }
+long random(void) { if (in_call_flag_for_ambient) ambient_calls++; return 4; }
+int isatty(int fd) { (void)fd; if (in_call_flag_for_ambient) { ambient_calls++; return 1; } return 0; }
+time_t time(time_t* t) { if (in_call_flag_for_ambient) ambient_calls++; if (t) *t = 1700000000; return 1700000000; }
+
 /* watchdog: a call that does not return within WATCH_S seconds is an observation ("fault:14:..."), not a hang of the harness */
 #include <sys/time.h>
 #define WATCH_S 5
@@ -182,16 +200,16 @@ static void do_op(Region* reg, uint8_t* arena, size_t alen, int readonly, char**
     uint8_t vb[8]; unhex(tok[5], vb, 8);
     uint64_t val = be64(vb);
     long base = atol(tok[6]);
-    char status[64] = "ok";
+    char status[64] = "ok"; int amb = 0;
     if (!v) { printf("R nobind 0000000000000000 0 0000000000000000 - 0\n"); return; }
     if (readonly) mprotect(reg->data, DATA_PAGES * PAGE, PROT_READ);
     fault_sig = 0;
     if (sigsetjmp(jb, 1) == 0) {
-        in_call = 1; watch(1);
+        in_call = 1; watch(1); ambient_arm(); in_call_flag_for_ambient = 1;
         run_op(v, tok[1], tok[2], atol(tok[3]), atol(tok[4]), val, arena + base, &r);
-        watch(0); in_call = 0;
+        in_call_flag_for_ambient = 0; amb = ambient_verdict(); watch(0); in_call = 0;
     } else {
-        watch(0); in_call = 0;
+        in_call_flag_for_ambient = 0; errno = 0; watch(0); in_call = 0;
         snprintf(status, sizeof status, "fault:%d:%ld", fault_sig, (long)((uint8_t*)fault_addr - arena));
     }
     if (readonly) mprotect(reg->data, DATA_PAGES * PAGE, PROT_READ | PROT_WRITE);
@@ -199,7 +217,7 @@ static void do_op(Region* reg, uint8_t* arena, size_t alen, int readonly, char**
     printf("R %s ", status); put64(r.ret); printf(" %ld ", r.rc); put64(r.out); putchar(' ');
     puthex(arena, alen);
     int bad = reg ? check_canary(reg, arena, alen) : 0;
-    printf(" %d\n", bad);
+    printf(" %d\n", bad ? bad : amb);
     if (bad) fill_canary(reg);
 }
 static void uncanary(Region* reg, uint8_t* arena, size_t alen)
@@ -274,13 +292,15 @@ int ext_dest_dirty(int k, size_t cap, uint8_t fill)   /* was anything before the
     for (size_t i = 0; i < lo; i++) if (regD[k].data[i] != fill) return 1;
     return 0;
 }
+static int ext_amb;
 int ext_call(void (*fn)(void*), void* ctx, char* status, size_t slen, uint8_t* arena)
 {
     strcpy(status, "ok");
     if (cur_ro) mprotect(cur_reg->data, DATA_PAGES * PAGE, PROT_READ);
     fault_sig = 0;
-    if (sigsetjmp(jb, 1) == 0) { in_call = 1; watch(1); fn(ctx); watch(0); in_call = 0; }
-    else { watch(0); in_call = 0; snprintf(status, slen, "fault:%d:%ld", fault_sig, (long)((uint8_t*)fault_addr - arena)); }
+    ext_amb = 0;
+    if (sigsetjmp(jb, 1) == 0) { in_call = 1; watch(1); ambient_arm(); in_call_flag_for_ambient = 1; fn(ctx); in_call_flag_for_ambient = 0; ext_amb = ambient_verdict(); watch(0); in_call = 0; }
+    else { in_call_flag_for_ambient = 0; errno = 0; watch(0); in_call = 0; snprintf(status, slen, "fault:%d:%ld", fault_sig, (long)((uint8_t*)fault_addr - arena)); }
     if (cur_ro) mprotect(cur_reg->data, DATA_PAGES * PAGE, PROT_READ | PROT_WRITE);
     return status[0] == 'o';
 }
@@ -289,17 +309,32 @@ void ext_result(const char* status, uint64_t ret, long rc, uint64_t out, uint8_t
     printf("R %s ", status); put64(ret); printf(" %ld ", rc); put64(out); putchar(' ');
     puthex(arena, alen);
     int bad = cur_reg ? check_canary(cur_reg, arena, alen) : 0;
-    printf(" %d", bad);
+    printf(" %d", bad ? bad : ext_amb);
     if (bad) fill_canary(cur_reg);
     if (cur_reg) uncanary(cur_reg, arena, alen);
 }
 
+static int real_main(void);
+static void* main_thread(void* a) { (void)a; return (void*)(long)real_main(); }
+#include <pthread.h>
 int main(void)
+{
+    /* VERIF_SMALL_STACK: the command loop (and with it every library call) runs on a 64 KiB stack between guard pages: a call
+     * whose stack need grows with its input overruns it (reported as a fault of the call: the handler runs on an alternate stack) */
+    if (getenv("VERIF_SMALL_STACK")) {
+        pthread_attr_t at; pthread_attr_init(&at); pthread_attr_setstacksize(&at, 64 * 1024); pthread_attr_setguardsize(&at, 64 * 1024);
+        pthread_t th; void* rv = NULL;
+        if (pthread_create(&th, &at, main_thread, NULL) == 0) { pthread_join(th, &rv); return (int)(long)rv; }
+    }
+    return real_main();
+}
+static int real_main(void)
 {
     static char line[1 << 20];
     static uint8_t buf[MAXARENA];
     struct sigaction sa; memset(&sa, 0, sizeof sa);
-    sa.sa_sigaction = on_fault; sa.sa_flags = SA_SIGINFO | SA_NODEFER;
+    sa.sa_sigaction = on_fault; sa.sa_flags = SA_SIGINFO | SA_NODEFER | SA_ONSTACK;
+    { static char altstk[1 << 16]; stack_t ss; ss.ss_sp = altstk; ss.ss_size = sizeof altstk; ss.ss_flags = 0; sigaltstack(&ss, NULL); }   /* a fault of the stack itself is reported like any other */
     sigaction(SIGSEGV, &sa, NULL); sigaction(SIGBUS, &sa, NULL); sigaction(SIGFPE, &sa, NULL); sigaction(SIGILL, &sa, NULL); sigaction(SIGALRM, &sa, NULL);
     regE = mkregion(); regS = mkregion(); regP = mkregion(); fill_canary(&regE); fill_canary(&regS);
     setvbuf(stdout, NULL, _IOFBF, 1 << 16);
